@@ -219,6 +219,29 @@ def measure_cases(ctx, quick, n_cases=None, seeds=None):
                         ctx.violation('ctm.measure_1site({site: c_site O}, site=%r) gives %r, the dense state has %r (%s %s %r)' % (tuple(sq), val if isinstance(val, dict) else complex(val), complex(ref), fam, sym, dims),
                                       dict(desc, env=name, what='1site-dict-site'), family='ctm-measure-1site-dict-site')
                         raise StopIteration
+                if name in ('boundary-mps', 'ctm'):
+                    # lists of operators at both sites of a 2-site correlator: every combination has its own fresh string and normalisation
+                    (A, B) = rng.choice(pairs)
+                    for dirn in ('h', 'v'):
+                        kw = dict(dirn=dirn, pairs=rng.choice(['<', '<=', 'row <']))
+                        if name == 'boundary-mps':
+                            kw['opts_svd'] = opts_svd
+                        Od = {s: [cf[s] * A, A, -cf[s] * A] for s in sites}
+                        Pd = {s: [B, cg[s] * B] for s in sites}
+                        c0 = lambda s_, k: (cf[s_], 1.0, -cf[s_])[k]
+                        c1 = lambda s_, k: (1.0, cg[s_])[k]
+                        try:
+                            resl = env.measure_2site(Od, Pd, **kw)
+                        except TypeError:
+                            continue
+                        ctx.count('measure_2site(lists,dirn=%s):%s' % (dirn, name))
+                        for (k0, k1), val in resl.items():
+                            s0, s1 = tuple(k0[:2]), tuple(k1[:2])
+                            ref = c0(s0, k0[2]) * c1(s1, k1[2]) * dense_ev(jw, v, [A, B], [s2i[s0], s2i[s1]])
+                            if not abs(val - ref) <= tol:
+                                ctx.violation('%s.measure_2site({site: [c A, A, -c A]}, {site: [B, d B]}, dirn=%s, pairs=%r) entry %r gives %r, the dense state has %r (%s %s %r)' % (
+                                    name, dirn, kw['pairs'], (k0, k1), complex(val), complex(ref), fam, sym, dims), dict(desc, env=name, what='2site-lists', dirn=dirn))
+                                raise StopIteration
                 if name in ('ctm', 'bp'):
                     for (A, B) in pairs:
                         lists = rng.random() < 0.5
@@ -253,6 +276,52 @@ def measure_cases(ctx, quick, n_cases=None, seeds=None):
                 if 'supports only' in str(e):
                     continue
                 ctx.violation('%s measurement raised %s: %s (%s %s %r)' % (name, type(e).__name__, str(e)[:120], fam, sym, dims), dict(desc, env=name, what='raise'))
+
+
+def generic_metric_cases(ctx, quick):
+    """bond metrics of generic (random, entangled everywhere) PEPS: every bond of the lattice, every cluster type, the QR-reduced tensors evolution_step_ uses"""
+    import yastn, yastn.tn.fpeps as fpeps
+    rng = ctx.rng
+    for rep in range(3 if quick else 30):
+        sym = rng.choice(['dense', 'Z2', 'U1'])
+        dims = rng.choice([(3, 3), (3, 3), (2, 3), (3, 2)])
+        dtype = rng.choice(['float64', 'complex128'])
+        cfg = yastn.make_config(sym='none' if sym == 'dense' else sym)
+        cfg.backend.random_seed(rng.randrange(2 ** 31))
+        g = fpeps.SquareLattice(dims=dims, boundary='obc')
+        psi = fpeps.Peps(g)
+        desc = dict(kind='ntu-metric-generic', sym=sym, dims=dims, dtype=dtype, rep=rep)
+        ctx.case(desc, nontrivial=True)
+        Nx, Ny = dims
+        if sym == 'dense':
+            bl = lambda s_, inner: yastn.Leg(cfg, s=s_, D=(2 if inner else 1,))
+            ph = yastn.Leg(cfg, s=1, D=(2,))
+        else:
+            bl = lambda s_, inner: yastn.Leg(cfg, s=s_, t=(0, 1), D=(1, 1)) if inner else yastn.Leg(cfg, s=s_, t=(0,), D=(1,))
+            ph = yastn.Leg(cfg, s=1, t=(0, 1), D=(1, 1))
+        for (x, y) in g.sites():
+            legs = [bl(-1, x > 0), bl(1, y > 0), bl(1, x < Nx - 1), bl(-1, y < Ny - 1), ph]
+            psi[x, y] = yastn.rand(cfg, legs=legs, n=rng.choice([0, 1]) if sym != 'dense' else None, dtype=dtype)
+        bonds = list(g.bonds())
+        for which in ('NN', 'NN+', 'NN++', 'NNN', 'NNN+', 'NNN++'):
+            env = fpeps.EnvNTU(psi, which=which)
+            for (s0, s1) in bonds:
+                dirn = 'h' if g.nn_bond_dirn(s0, s1) in ('lr', 'rl') else 'v'
+                if dirn == 'h':
+                    Q0, _ = psi[s0].qr(axes=((0, 1, 2, 4), 3), sQ=-1, Qaxis=3)
+                    Q1, _ = psi[s1].qr(axes=((0, 2, 3, 4), 1), sQ=1, Qaxis=1, Raxis=-1)
+                else:
+                    Q0, _ = psi[s0].qr(axes=((0, 1, 3, 4), 2), sQ=1, Qaxis=2)
+                    Q1, _ = psi[s1].qr(axes=((1, 2, 3, 4), 0), sQ=-1, Qaxis=0, Raxis=-1)
+                M = env.bond_metric(Q0, Q1, s0, s1, dirn).g.to_numpy()
+                ctx.count('metric-generic:%s:%s' % (which, dirn))
+                nrm = max(np.linalg.norm(M), 1e-300)
+                ah = np.linalg.norm(M - M.conj().T) / nrm
+                w = np.linalg.eigvalsh((M + M.conj().T) / 2)
+                if not ah <= 1e-10 or not w.min() >= -1e-10 * max(abs(w).max(), 1e-300):
+                    ctx.violation('NTU bond metric (%s, dirn=%s) of a random %s PEPS %r on bond %r is not Hermitian positive semi-definite: relative anti-Hermitian part %.3g, eigenvalues in [%.3g, %.3g]' % (
+                        which, dirn, sym, dims, (tuple(s0), tuple(s1)), ah, w.min(), w.max()), dict(desc, which=which, bond=[list(s0), list(s1)]))
+                    break
 
 
 def metric_and_evolution(ctx, quick):
@@ -334,6 +403,7 @@ def run(ctx):
                        'apply_gate_. non-trivial = every case; distinct by case seed')
     bad = swaps_correspondence(ctx, st, quick)
     measure_cases(ctx, quick)
+    generic_metric_cases(ctx, quick)
     metric_and_evolution(ctx, quick)
     if bad and not ctx.violations:
         ctx.violation('charge-swap model and implementation disagree: %s' % json.dumps(bad[0], default=str)[:600], dict(kind='correspondence', first=bad[:2]))
